@@ -121,8 +121,7 @@ theorem bad_entry_reported (hlen : ∀ d, subdirNameChars ≤ (H d).length) (sf 
       exact Or.inr ⟨n, hnum, hherr⟩
     have hle : Err.invalidMetadata ∈ listErrors s' 0 := by
       unfold listErrors
-      rw [List.mem_flatMap]
-      exact ⟨0, by simp [chain], hbe⟩
+      exact List.mem_append_left _ hbe
     have hhead : headError s' 0 = none := by simp [headError, hf.head]
     have hve : Err.invalidMetadata ∈ validateErrors H quick s' := by
       unfold validateErrors
